@@ -18,6 +18,7 @@ import (
 	"fmt"
 	"go/ast"
 	"go/types"
+	"os"
 	"sort"
 	"strings"
 
@@ -269,6 +270,32 @@ func ruleC15Position(p *Prog, r *Res) {
 		})
 	}
 	r.Floor(rule, 3, n)
+	// the typestate presupposes positional writes: a file opened with O_APPEND ignores the position for writes, so the
+	// compaction (Seek to the first free byte, rewrite the live records there) would append them instead
+	nOpen := 0
+	for _, f := range p.FnList {
+		if f.Short != "converters" || f.Body() == nil {
+			continue
+		}
+		info := f.Pkg.TypesInfo
+		for _, c := range callsIn(f.Body()) {
+			fn := p.Callee(f.Pkg, c)
+			if fn == nil || fn.FullName() != "os.OpenFile" || len(c.Args) != 3 {
+				continue
+			}
+			nOpen++
+			key := fmt.Sprintf("%s opens the cache file for positional writes", f.Key())
+			v, ok := constVal(info, c.Args[1])
+			if !ok {
+				r.Undecided(rule, key, p.Pos(c), "open flags are not a constant expression")
+				continue
+			}
+			var flags int64
+			fmt.Sscan(v, &flags)
+			r.Check(flags&int64(os.O_APPEND) == 0, rule, key, p.Pos(c), "flags "+types.ExprString(c.Args[1])+" do not contain O_APPEND", "the cache file is opened with O_APPEND: every write lands at the end of the file whatever the position is, so compaction appends the live records instead of moving them down, the following truncate cuts them off, and the index points at old bytes")
+		}
+	}
+	r.Floor(rule+" opens", 1, nOpen)
 }
 
 func recvType(fn *types.Func) types.Type {
